@@ -1009,7 +1009,16 @@ def sessions(thorough):
     for info in info_events():
         for f in followers:
             out.append(((), (info, f)))
+    # string values that need escaping, OUTSIDE the closed 768-state space (a separate sweep, so it does not grow):
+    # set, echo, list, render NULL cells as that value (text, then csv)
+    for value in AWKWARD_NULLVALUES:
+        out.append(((), (ev_assign('nullvalue', value), ('echo', '.set nullvalue', 'nullvalue', False),
+                         ('echo_all', '.set', False), ('stmt', STATEMENTS[0][1], 0),
+                         ev_assign('format', 'csv'), ('echo_all', '.set', False), ('stmt', STATEMENTS[0][1], 0))))
     return out
+
+
+AWKWARD_NULLVALUES = ["it's", 'a"b', 'back\\slash', 'both\'"', 'tab\there']
 
 
 def info_events():
